@@ -387,8 +387,10 @@ def step (s : State) (op : List String) : List (State × List Ev) :=
   let now := opTime op
   let op' := stripTime op
   (timerOutcomes s now).flatMap (fun (st : State × List (Nat × Ev)) =>
-    (core st.1 now op').map (fun (r : State × List Ev × List (Nat × Ev)) =>
-      ({ r.1 with tprev := now }, r.2.1 ++ sortByKey (st.2 ++ r.2.2))))
+    (core st.1 now op').flatMap (fun (r : State × List Ev × List (Nat × Ev)) =>
+      -- a timer armed by this very operation can already be due if the operation (or the harness) was slow
+      (timerOutcomes { r.1 with tprev := now } now).map (fun (r2 : State × List (Nat × Ev)) =>
+        (r2.1, r.2.1 ++ sortByKey (st.2 ++ r.2.2 ++ r2.2)))))
 
 end Req
 end Proto
